@@ -291,6 +291,12 @@ func runInstance(ld *Loaded, h HarnessSpec, ts TierSpec, args []int, opt *Option
 		e.isConc = true
 		e.concrete = concrete
 	}
+	if pin := os.Getenv("GOSYM_PIN"); pin != "" {
+		for _, a := range strings.Split(pin, ",") {
+			n, _ := strconv.ParseUint(strings.TrimSpace(a), 0, 64)
+			e.pin = append(e.pin, n)
+		}
+	}
 	if opt.SmtLog != "" {
 		f, _ := os.Create(opt.SmtLog)
 		e.sol.log = f
